@@ -1588,10 +1588,12 @@ class Interp:
             if isinstance(a, TD) and isinstance(b, DT):
                 return self._shift(b, a, 1)
             if isinstance(a, TD) and isinstance(b, TD):
-                if a.mag == "zero":
-                    return b
-                if b.mag == "zero":
-                    return a
+                if a.mag == "zero" or b.mag == "zero":
+                    z, o = (a, b) if a.mag == "zero" else (b, a)
+                    if not z.term or o.term is None:
+                        return o
+                    # numerically o; the symbolic term keeps the (zero) summand
+                    return TD(term=term_add(a.term, b.term), mag=o.mag, tag=o.tag, secs=o.secs)
                 return TD(a.seconds_zero and b.seconds_zero, term_add(a.term, b.term))
             if isinstance(a, DT) and isinstance(b, DT):
                 raise AbsRaise("TypeError", "unsupported operand type(s) for +")
@@ -1770,6 +1772,24 @@ class Interp:
             return o
         if t.name == "list":
             return list(self._as_list(args[0])) if args else []
+        if t.name == "bool":
+            return self.truth(args[0]) if args else False
+        if t.name == "float":
+            x = args[0] if args else 0.0
+            if isinstance(x, Obj):
+                x = x.attrs.get("floatval", x.attrs.get("intval", x.strval))
+            try:
+                return float(x)
+            except (TypeError, ValueError) as e:
+                raise AbsRaise(type(e).__name__, str(e))
+        if t.name == "bytes":
+            x = args[0] if args else b""
+            if isinstance(x, Obj) and x.strval is not None:
+                x = x.strval
+            try:
+                return bytes(x, *args[1:], **kwargs) if isinstance(x, str) else bytes(x)
+            except (TypeError, ValueError) as e:
+                raise AbsRaise(type(e).__name__, str(e))
         raise Unsupported(f"call of type {t.name}")
 
     def instantiate(self, ci, args, kwargs):
